@@ -156,13 +156,15 @@ def check_known(binary, cfg, prop, lines):
     for f in load_known():
         if prop not in f.get("properties", []):
             continue
-        if f.get("test") and f["test"] != cfg["test"]:
-            continue  # the reproducer belongs to another check's case format
-        rep = f.get("reproducer")
+        rep = (f.get("reproducers") or {}).get(prop)  # a reproducer in this check's own case format
+        if not rep:
+            if f.get("test") and f["test"] != cfg["test"]:
+                continue  # the reproducer belongs to another check's case format
+            rep = f.get("reproducer")
         if not rep:
             continue
         path = os.path.join(VERIF, rep)
-        rc, out = replay_one(binary, cfg, prop, path, f.get("test"))
+        rc, out = replay_one(binary, cfg, prop, path, None if (f.get("reproducers") or {}).get(prop) else f.get("test"))
         sigs = re.findall(r"REPLAY-KNOWN sig=(\S+)", out)
         if f.get("status") == "open":
             if f.get("signature") in sigs and "REPLAY-FAIL" not in out:
